@@ -237,7 +237,10 @@ impl Ctl {
     }
 
     pub fn parked_infos(&self) -> Vec<GateInfo> {
-        self.0.parked.lock().unwrap().iter().map(|p| p.info.clone()).collect()
+        let mut g = self.0.parked.lock().unwrap();
+        // a task that was aborted by the code under test (e.g. a lease-renewal task) drops its receiver
+        g.retain(|p| !p.tx.is_closed());
+        g.iter().map(|p| p.info.clone()).collect()
     }
     fn grant(&self, serial: u64, d: Decision) -> bool {
         let mut g = self.0.parked.lock().unwrap();
